@@ -31,6 +31,9 @@ CLAIMS = {
  "C06": dict(tech=SMT, ref="DESIGN.md §8 C06",
   text="Kernel of C06: (1) the memory counter, for all 64-bit values: requireMem/RequireMem leave a live context strictly below a non-zero limit or terminate it with the counter unchanged, the sum saturates instead of wrapping, ReleaseMem never goes below zero under its precondition (amount <= used), PopContext charges the child's memory to the restored parent. (2) Charge-before-allocate, generated mechanically for every allocation of a program-chosen size (make, strings.Repeat, Builder.Grow, ToLower/ToUpper, string concatenation) in string.rep/reverse/lower/upper, utf8.char and the `..` operator: the bytes charged earlier in the same call (ghost counter advanced by RequireMem's contract) cover the allocation. Same-size copies of data the context already holds ([]byte(s), string(b)) are not counted. Real Go heap growth, pairing of require/release across functions (load, coroutines, continuations) and the remaining library functions are not decided.",
   note="Trusted: ghost counter mem is advanced only by the contracts of RequireMem/requireMem; Thread.Runtime != nil assumed as a type invariant; external calls havoc the heap. Known unrepaired defects found while reading (double release on compile errors, Thread.end releasing in another context, readCode allocating before charging) are outside the functions under contract and listed in DESIGN §13."),
+ "C19": dict(tech=SMT, ref="DESIGN.md §8 C19",
+  text="Position arithmetic of the string/table library for all int64 arguments (integer mode with explicit wrap-around): StringNormPos implements the manual's negative-position rule; string.sub takes exactly the bytes from max(1, norm i) to min(#s, norm j) (or the empty string) and never slices outside the string; string.byte never indexes outside it; string.rep returns s for n = 1, returns the empty string only when n = 0 or s is empty with no separator (or after the separator loop), and charges what it builds; table.remove only touches positions >= pos, and a position < 1 is only accepted when it equals #list or #list+1. Results that go through strings.Builder, Index/SetIndex with metamethods, upper/lower and table.sort are not decided.",
+  note="Trusted: strings.Repeat result length = len(s)*count; strings.Builder, rt.Index/SetIndex/IntLen are external (heap havocked); call-site assertions refer to source-level locals (i, j, pos, ln, sep): renaming them detaches the contract (reported as attach failure)."),
 }
 
 NA = {
